@@ -488,6 +488,63 @@ class MustWrites:
                     out |= {p + ('*',) for p in ps}
         return out
 
+    def _full_loops(self, fn, c):
+        """{id of the condition branch: (loop head, successor inside the loop, successor outside)} for loops that certainly run at
+        least once and over their whole range: a range-for over a fixed array with at least one element"""
+        out = {}
+        for h in c.events(('loophead',)):
+            st = h.e if isinstance(h.e, dict) else None
+            if not st or st.get('s') != 'rfor' or not st.get('extent') or st['extent'] < 1:
+                continue
+            x = h.succ[0][0] if h.succ else None
+            hops = 0
+            while x is not None and x.kind != 'branch' and x.succ and hops < 6:
+                x = x.succ[0][0]
+                hops += 1
+            if x is None or x.kind != 'branch':
+                continue
+            body = c.loop_body(h)
+            inside = [s2 for s2, lab in x.succ if lab == 'T']
+            outside = [s2 for s2, lab in x.succ if lab == 'F']
+            if len(inside) == 1 and len(outside) == 1:
+                out[x.id] = (h, inside[0], outside[0])
+        return out
+
+    def _solve(self, fn, c, nodes, gens, fixed, full):
+        TOP = None
+        mw = {n.id: TOP for n in nodes}
+        mw.update(fixed)
+        changed = True
+        it = 0
+        ids = set(n.id for n in nodes)
+        while changed and it < 100:
+            changed = False
+            it += 1
+            for n in reversed(nodes):
+                if n.id in fixed:
+                    continue
+                if n.id in full:
+                    # the loop body runs (at least once, over every element), then the code after the loop
+                    h, inside, outside = full[n.id]
+                    vals = [full['body', n.id]] if ('body', n.id) in full else []
+                    o = mw.get(outside.id) if outside.id in ids else set()
+                    if o is TOP:
+                        continue
+                    new = gens[n.id] | (vals[0] if vals else set()) | set(o or ())
+                else:
+                    succs = [s2 for s2, lab in n.succ if s2.id in ids]
+                    vals = [mw[s2.id] for s2 in succs if mw[s2.id] is not TOP]
+                    if not vals:
+                        continue
+                    inter = set(vals[0])
+                    for v in vals[1:]:
+                        inter &= v
+                    new = gens[n.id] | inter
+                if mw[n.id] is TOP or new != mw[n.id]:
+                    mw[n.id] = new
+                    changed = True
+        return mw
+
     def after(self, fn, c, start, depth=0):
         """must-write set on every path start -> exit (start's own effect included)"""
         reach = set()
@@ -501,28 +558,15 @@ class MustWrites:
                 st.append(s)
         nodes = [n for n in c.nodes if n.id in reach]
         gens = {n.id: self.gen(fn, n, depth) for n in nodes}
-        # backward: MW(n) = gen(n) | intersection over successors MW(s); exit: {}
-        TOP = None
-        mw = {n.id: TOP for n in nodes}
-        mw[c.exit.id] = set()
-        changed = True
-        it = 0
-        while changed and it < 100:
-            changed = False
-            it += 1
-            for n in reversed(nodes):
-                if n is c.exit:
-                    continue
-                succs = [s for s, lab in n.succ if s.id in reach]
-                vals = [mw[s.id] for s in succs if mw[s.id] is not TOP]
-                if not vals:
-                    continue
-                inter = set(vals[0])
-                for v in vals[1:]:
-                    inter &= v
-                new = gens[n.id] | inter
-                if mw[n.id] is TOP or new != mw[n.id]:
-                    if mw[n.id] is TOP or new < mw[n.id] or new != mw[n.id]:
-                        mw[n.id] = new
-                        changed = True
+        full = {}
+        for bid, (h, inside, outside) in self._full_loops(fn, c).items():
+            if bid not in reach:
+                continue
+            body_ids = c.loop_body(h)
+            bnodes = [n for n in nodes if n.id in body_ids]
+            # one iteration: from the first node inside to the loop head (treated as the end of the iteration)
+            sub = self._solve(fn, c, bnodes, gens, {h.id: set()}, {})
+            full[bid] = (h, inside, outside)
+            full['body', bid] = set(sub.get(inside.id) or ())
+        mw = self._solve(fn, c, nodes, gens, {c.exit.id: set()}, full)
         return mw.get(start.id) or set()
